@@ -64,6 +64,13 @@ def run(check, prog):
     precedence_tables(check, prog)
     forward(check, prog)
     name_agreement(check, prog)
+    # per-channel noise / scaling given as labelled arrays pass through the
+    # parameter map (rule shared with C11) ...
+    from . import c11, c20
+    c11.xarray_map(check, prog)
+    # ... and `an invalid scatterer gives -inf` rests on the constructors refusing
+    # exactly the invalid ones (rule shared with C20)
+    c20.constructors(check, prog)
 
 
 def is_neg_inf(t):
